@@ -14,6 +14,7 @@ def main (args : List String) : IO UInt32 := do
   | ["rwmutex-spec"] => loop stdin stdout RWMutexSpecD.stepSpec []; return 0
   | ["engine-spec"] => loop stdin stdout EngineSpec.step {}; return 0
   | ["crash-spec"] => loop stdin stdout EngineSpec.step {}; return 0
+  | ["import-spec"] => loop stdin stdout EngineSpec.step {}; return 0
   | ["replica-spec"] => loop stdin stdout EngineSpec.step {}; return 0
   | ["codec-spec"] => loop stdin stdout CodecSpec.step (); return 0
   | _ =>
